@@ -61,4 +61,21 @@ func TestC18(t *testing.T) {
 	})
 }
 
+// TestC20 : the pure functions called from many goroutines at once, each with arguments of its own
+// (the driver builds this binary with -race).
+func TestC20(t *testing.T) {
+	evid.Run(t, evid.Prop[ConcCase]{
+		ID:   "C20",
+		Rule: "2..8 goroutines, each repeating (20..400 rounds) its own list of 1..6 calls of the pure API (Rate.Recalculate/Optimize/Flatten/IsValid, Fair/Rate dividers of both versions, IsNonFatalConfig/IsSuitableConfig/PickUp* of both versions) with arguments that no other goroutine touches, released together; oracle = race detector plus equality with the results of the same calls made one after another; non-trivial = at least 2 goroutines with at least 4 calls in total; distinct = distinct case JSON",
+		Gen:  GenConc,
+		Run: func(c ConcCase) evid.Outcome {
+			n := 0
+			for _, w := range c.Workers {
+				n += len(w)
+			}
+			return evid.Outcome{Err: CheckConc(c), NonTrivial: len(c.Workers) >= 2 && n >= 4, Classes: []string{"pure-concurrent"}, Summary: "see script"}
+		},
+	})
+}
+
 var _ = rapid.Bool
